@@ -6,6 +6,6 @@ From GSgen Require Import GenMaxDepthSel.
 
 Definition scase_agrees (c : scase) : bool :=
   Bool.eqb (validate max_depth_spec (sc_max c) (sc_node c)) (sc_go_accepts c) &&
-  match sc_sel c with Some s => node_equiv 64 (to_node s) (sc_node c) | None => true end.
+  match sc_sel c with Some s => node_equiv 2000 (to_node s) (sc_node c) | None => true end.
 Definition scase_mon (c : scase) : bool :=
   match sc_sel c with Some s => Bool.eqb (sc_go_accepts c) (all_limits_le (sc_max c) s) | None => true end.
